@@ -374,28 +374,15 @@ impl TimeZone {
         // possibleEpochNsAfter is not empty (i.e., isoDateTimeAfter represents the first local time
         // after the transition).
 
-        // Similar to disambiguation, we need to first get the possible epoch for the current start of day +
-        // 3 hours, then get the timestamp for the transition epoch.
-        let after = IsoDateTime::new_unchecked(
-            *iso_date,
-            IsoTime {
-                hour: 3,
-                ..Default::default()
-            },
-        );
-        let Some(after_epoch) = self
-            .get_possible_epoch_ns_for(after, provider)?
-            .into_iter()
-            .next()
-        else {
-            return Err(TemporalError::r#type()
-                .with_message("Could not determine the start of day for the provided date."));
-        };
+        // NOTE: As for disambiguation, the offset in force one day after midnight read as UTC is
+        // the one after the gap, whatever the size of the gap (UTC offsets are shorter than a
+        // day); the transition that started it is the first instant of the day.
+        let after_epoch = iso.as_unchecked_nanoseconds() + i128::from(NS_PER_DAY);
 
         let TimeZoneOffset {
             transition_epoch: Some(transition_epoch),
             ..
-        } = provider.get_named_tz_offset_nanoseconds(identifier, after_epoch.0)?
+        } = provider.get_named_tz_offset_nanoseconds(identifier, after_epoch)?
         else {
             return Err(TemporalError::r#type()
                 .with_message("Could not determine the start of day for the provided date."));
